@@ -185,6 +185,27 @@ def r1_inventory(ctx, sym):
                   function=fn._qualname, sample={'object': key, 'disposition': what, 'sites': len(sites)})
 
 
+def r1b_reset_rebuilds(ctx, sym):
+    """reset_builtin_modules, executed abstractly on a pre-filled table, must leave no entry of the previous analysis."""
+    from ..fdeval import FD, Raised, Inconclusive
+    mod = ctx.repo.module('pedal.types.new_types')
+    fn = mod.func('reset_builtin_modules')
+    ctx.analysed_function(mod, fn)
+    table = {'math': 'STALE', 'gone': 'STALE'}
+    loaders = {'math': (lambda: 'FRESH'), 'random': (lambda: 'FRESH')}
+    fd = FD()
+    fd.resolver = lambda n: {'BUILTIN_MODULES': table, '_MODULE_LOADERS': loaders}[n]
+    try:
+        fd.call_function(fn, [])
+    except (Raised, Inconclusive) as e:
+        raise AnalysisError("C13 R1: reset_builtin_modules outside the decidable fragment: %s" % e)
+    ctx.check(table == {'math': 'FRESH', 'random': 'FRESH'}, 'R1', 'reset_builtin_modules:rebuilds-every-entry', mod, fn,
+              "after the reset the table is %r: module types built for an earlier analysis are kept (TIFA mutates them "
+              "through add_attr when a student assigns to a module attribute)" % table,
+              "submission 1: `import turtle; turtle.forward = 100`; submission 2 calls turtle.forward(50) and is told "
+              "it is calling an integer")
+
+
 def r2_clear_complete(ctx, sym):
     ctx.rule('R2', "Report.clear() resets every attribute Report.__init__ creates (re-assigned or .clear()ed, "
                    "transitively through self-method calls), except the documented class_hooks")
@@ -357,6 +378,7 @@ def r6_determinism(ctx, sym):
 def run(ctx):
     sym = Symbols(ctx.repo)
     r1_inventory(ctx, sym)
+    r1b_reset_rebuilds(ctx, sym)
     r2_clear_complete(ctx, sym)
     r3_lazy_tool_reset(ctx, sym)
     r4_entry_points(ctx, sym)
